@@ -38,6 +38,14 @@ def impl_fromutc(z, us):
     return _guard(f)
 
 
+def impl_fromutc_foreign(z, us, other):
+    """the public fromutc on a datetime attached to ANOTHER tzinfo (or none): the decorator's ValueError"""
+    def f():
+        w = z.fromutc(_dt(us).replace(tzinfo=other))
+        return "%d,%d" % (_us(w.replace(tzinfo=None) - EPOCH), w.fold)
+    return _guard(f)
+
+
 def impl_file_wall(z, us):
     out = [_guard(lambda: "%d" % bool(z.is_ambiguous(_dt(us))))]
     for fold in (0, 1):
@@ -150,6 +158,12 @@ def validate(ctx, quick_zones=14, quick_syn=12):
         ups, wps = spread(ups, rng), spread(wps, rng)
         hdr = "%d %d %d %s" % (std, dst, has, Z.ilist(tbl))
         reqs.append("tzgen.range.fromutc %s %s" % (hdr, Z.ilist(ups))); exp.append("ok " + " ".join(impl_fromutc(z, u) for u in ups)); meta.append((name, ups))
+        if ((ctx.lean.gen_report.get("kernels") or {}).get("TzObjKernels") or {}).get("ok"):
+            import datetime as _d
+            few = ups[:6]
+            reqs.append("tzgen.range.fromutc_pub %s %s 1" % (hdr, Z.ilist(few))); exp.append("ok " + " ".join(impl_fromutc(z, u) for u in few)); meta.append((name, few))
+            reqs.append("tzgen.range.fromutc_pub %s %s 0" % (hdr, Z.ilist(few)))
+            exp.append("ok " + " ".join(impl_fromutc_foreign(z, u, (None, _d.timezone.utc)[i % 2]) for i, u in enumerate(few))); meta.append((name, few))
         abbrs = "%s %s" % (_name(z._std_abbr or ""), _name(z._dst_abbr or ""))
         reqs.append("tzgen.range.wall %s %s %s" % (hdr, Z.ilist(wps), abbrs)); exp.append("ok " + " ".join(impl_range_wall(z, w) for w in wps)); meta.append((name, wps))
     _local_requests(ctx, rng, thorough, reqs, exp, meta)
